@@ -16,22 +16,22 @@ T = {
          "Real `schema inspect` HCL and SQL exports of databases built by raw DDL and by Atlas are re-evaluated / re-executed on fresh engines and compared by facts and by the real differ in both directions.",
          "SQLite engine and fact reader trusted; only SQLite databases.", "§4 C03"),
  "C04": ("exploration", "reference-catalogue replay of real plans over exhaustively enumerated FK digraphs",
-         "All FK digraphs with self loops over ≤3 (quick) / 4 (thorough) tables × splits are planned by the real MySQL and PostgreSQL planners from the real differ's change sets; each plan is replayed (Source and Cmd text) through a reference catalogue enforcing FK ordering.",
+         "All FK digraphs with self loops over ≤3 (quick) / 4 (thorough) tables × splits are planned by the real MySQL and PostgreSQL planners from the real differ's change sets; each plan is replayed (Source and Cmd text) through a reference catalogue enforcing FK ordering. Also: plan modes, the connected driver in its TiDB/MariaDB flavours (server-less fake connection), foreign keys dropped with their column or re-pointed (ModifyForeignKey), realm diffs with same-named tables in different schemas, the same change set planned twice.",
          "The reference catalogue's FK rules stand in for the engines (none installed).", "§4 C04"),
  "C05": ("exploration", "tagged-cell row multiset monitor around real plans executed on SQLite",
          "Tables are populated with unique tagged values, Atlas's plan (ALTER and rebuild paths) is executed on a real SQLite file, and row multisets of surviving columns and untouched tables are compared.",
          "SQLite engine trusted; data-compatible edits only.", "§4 C05"),
  "C06": ("exploration", "exhaustive single-edit neighbourhood vs an independent sum-file class spec",
-         "Every single-byte edit/insert/delete of every file and of atlas.sum, renames, adds, deletes, swaps and seeded compound edits of small directories are validated by the real migrate.Validate (and the CLI on a sample) and compared with a class spec (untouched/protected/ignored).",
+         "Every single-byte edit/insert/delete of every file and of atlas.sum, renames, adds, deletes, swaps and seeded compound edits of small directories are validated by the real migrate.Validate (and the CLI on a sample) and compared with a class spec (untouched/protected/ignored). Also: every writer (WritePlan, WriteCheckpoint, CopyFiles, archive round trip, CLI hash/new/import in every directory format and way of naming the format) must leave a valid directory; every consumer (fresh / re-used / in-memory Executor, CLI validate/new/apply/status/set/diff/lint) must refuse a protected edit with a checksum error and touch nothing.",
          "Class spec trusted; SHA-256 collisions ignored.", "§4 C06"),
  "C07": ("exploration", "plan → formatter → reader round-trip monitor with hostile names/literals",
-         "Real planner output with hostile identifiers and literals is written by every formatter and read back by the matching reader and scanner; statements must be identical.",
+         "Real planner output with hostile identifiers and literals is written by every formatter and read back by the matching reader and scanner; statements must be identical (all formatters, indent, delimiters, unnamed plans, rewritten files, directory paths with glob characters). `migrate import` of generated and hand-written third-party directories (incl. several files / shared versions) must preserve the source reader's statement sequence.",
          "No engine parses the SQL; equality of text is the oracle.", "§4 C07"),
  "C08": ("exploration", "seeded grammar + byte-mutation workload under structural position/gap invariants (panic/hang watch)",
-         "Hundreds of thousands of generated and mutated inputs per option set are scanned by the real scanner; Pos/Text/gap/line invariants are asserted on every result and panics/hangs are caught.",
+         "Hundreds of thousands of generated and mutated inputs per option set are scanned by the real scanner; Pos/Text/gap/line invariants are asserted on every result and panics/hangs are caught. A file leg re-scans the same LocalFile value after AddDirective against a fresh scan of its bytes; a CLI leg checks the line `migrate lint` reports.",
          "My gap lexer defines what may lie between statements.", "§4 C08"),
  "C09": ("fault_enumeration", "exhaustive fault-sequence enumeration with an online event-trace monitor at the Driver/RevisionReadWriter boundary",
-         "All directory shapes ≤3 files × ≤3 statements × all sequences of ≤2 (thorough: 3) faults — each the k-th ExecContext or k-th WriteRevision of an attempt failing — are run through the real Executor; order/once/resume/over-claim invariants are checked on the recorded history.",
+         "All directory shapes ≤3 files × ≤3 statements × all sequences of ≤2 (thorough: 3) faults — each the k-th ExecContext or k-th WriteRevision of an attempt failing — are run through the real Executor; order/once/resume/over-claim invariants are checked on the recorded history. Also: transient ReadRevision faults, ErrBadConn statement faults, attempts with an unscannable file, unpadded versions, checkpoint shapes, 70-statement files; the CLI part injects statement and k-th-revision-write faults (SQLite triggers, adaptive enumeration) in tx-mode none/file/all.",
          "Recording driver/store faithfully model a failing database call (a failed write leaves the store unchanged).", "§4 C09"),
  "C10": ("fault_enumeration", "kill -9 at every instrumented point (+ strace syscall kills) of the real CLI on a SQLite file; offline journal/revision checker",
          "For every tx-mode and directory shape the real CLI (built with -tags verif) is killed at each reached (hook point, occurrence) and, via strace injection, at file-I/O syscalls; an independent sqlite3 client checks revision ≤ effects, file atomicity, and exactly-once after the re-run.",
@@ -40,7 +40,7 @@ T = {
          "All directories ≤4 (thorough 5) versions × checkpoint subsets × consistent histories × exec orders × baseline/dirty options are given to the real Executor.Pending and compared with a reference model; seeded CLI sequences compare status/apply/set with the model.",
          "Reference model (Appendix A) trusted; domain = histories reachable by Atlas operations.", "§4 C11"),
  "C12": ("fault_enumeration", "exhaustive (n,k,edit) enumeration with recording driver/store; CLI sample on SQLite",
-         "Every file of ≤5 statements × every partial progress × every edit is resumed through the real Executor; a changed prefix must yield HistoryChangedError, no exec, untouched history; tail edits must resume exactly.",
+         "Every file of ≤5 statements × every partial progress × every edit is resumed through the real Executor; a changed prefix must yield HistoryChangedError, no exec, untouched history; tail edits must resume exactly. Also: crash-state and two-stage set-ups, three-attempt sequences with a growing tail, 200/1500 statement-text families (per-statement checksums), differing operator versions, read and write faults around the refusal.",
          "Recording driver/store.", "§4 C12"),
  "C13": ("fault_enumeration", "failing statement at every position × tx-mode × directives through the real CLI; full independent dumps vs a state model",
          "The real CLI is run on SQLite files with a failing statement at every position per tx-mode/directive/count, and with --dry-run; python sqlite3 dumps before/after are compared with a state model.",
@@ -52,7 +52,7 @@ T = {
          "Every TypeSpec of the three registries over a parameter grid and an attribute catalogue is marshalled to HCL, evaluated back and compared by the real differ, by an independent descriptor and by bytes; FormatType/ParseType fixpoint.",
          "Descriptor normalisation rules listed in the monitor.", "§4 C15"),
  "C16": ("exploration", "marker-schema token monitor over planned and reverse statements",
-         "Plans of the real MySQL/PostgreSQL planners for change sets over a schema named with a unique marker, for qualifier ∈ {nil, empty, custom}, are tokenized; the marker/qualifier rules are asserted on every statement and reverse statement.",
+         "Plans of the real MySQL/PostgreSQL planners for change sets over a schema named with a unique marker, for qualifier ∈ {nil, empty, custom}, are tokenized; the marker/qualifier rules are asserted on every statement and reverse statement (with and without indentation). Also: hostile qualifiers, schema-name pairs a sloppy comparison merges, one migrate.Planner re-used across call sequences, connected drivers bound to a schema through the real URL openers, and the real cobra commands through an overlay probe (schema apply / inspect / diff).",
          "Disjoint generated name spaces make a marker hit unambiguous.", "§4 C16"),
  "C17": ("exploration", "up/down execution on real SQLite + reversible-flag and down-file consistency for all dialects",
          "Reversible plans are executed up then down on real SQLite files and compared by independent facts and diff; Reversible flag recomputed; formatter down files compared with reverse statements.",
